@@ -63,6 +63,8 @@ def plan(tier, seed):
     shards.append(("long",))
     for ui in range(NUBI):
         shards.append(("getind", ui, 4 if tier == "quick" else 5))
+    shards.append(("exact",))
+    shards.append(("rgrefine",))
     k = seed % len(shards)
     return shards[k:] + shards[:k]
 
@@ -326,8 +328,91 @@ def _run_getind(desc):
     return sh
 
 
+def _run_exact(desc):
+    """peaks whose squared error is EXACTLY tol^2 in floating point (power-of-two UBI, dyadic g-vectors, dyadic tolerances, so that no
+    operation rounds): here "within the tolerance" is decidable, and every kernel must count like the Python reference
+    (drlv2 < tol*tol)"""
+    from ImageD11 import cImageD11 as cI, indexing
+    indexing.loglevel = 4
+    sh = Shard()
+    for scale in (4.0, 8.0, 2.0):
+        ubi = np.eye(3) * scale
+        # errors on a dyadic grid: components in {0, 1/16, ..., 8/16}
+        comps = np.arange(0, 9) / 16.0
+        hk = [(1, 0, 0), (0, 2, -1), (3, 1, 2), (1000, 0, -7), (-5, 4, 0)]
+        rows = []
+        for h in hk:
+            for d in itertools.product(comps, repeat=3):
+                rows.append((np.array(h, float) + np.array(d)) / scale)
+        gv = np.ascontiguousarray(rows)
+        e_ref = indexing.calc_drlv2(ubi, gv)
+        for tol in (0.25, 0.3125, 0.5, 0.125, 0.0625, 0.375):
+            want = int((e_ref < tol * tol).sum())
+            n_eq = int((e_ref == tol * tol).sum())
+            case = {"kind": "exact", "scale": scale, "tol": tol, "peaks_exactly_on_the_tolerance": n_eq}
+            got = {"score": int(cI.score(ubi, gv, tol)), "score_and_refine": int(cI.score_and_refine(ubi.copy(), gv, tol)[0]),
+                   "score_and_assign": int(cI.score_and_assign(ubi, gv, tol, np.full(len(gv), 2.0), np.full(len(gv), -1, np.int32), 1))}
+            ind = indexing.indexer(unitcell=None, gv=gv.copy())
+            ind.hkl_tol = tol
+            got["indexer.score"] = int(ind.score(ubi, tol))
+            got["indexer.getind"] = int(ind.getind(ubi, tol).sum())
+            for nm, v in got.items():
+                if v != want:
+                    sh.violation("%s:peak-exactly-on-the-tolerance-counted-differently-from-the-python-reference" % nm, dict(case, kernel=nm),
+                                 {"got": v, "python_reference": want})
+            sh.evaluations += 1
+            if n_eq:
+                sh.nontrivial += 1
+    sh.outcomes.add("exact")
+    sh.sample(case, limit=1)
+    return sh
+
+
+def _run_rgrefine(desc):
+    """refinegrains.refine (the method the position refinement calls on every step): it returns the refined matrix and leaves the
+    matrix it was given alone, so that calling it again with the same array gives the same answer"""
+    from ImageD11 import refinegrains, indexing
+    import io, contextlib
+    indexing.loglevel = 4
+    sh = Shard()
+    for ui, (ubi, gen) in enumerate(ubis()):
+        P = peaks_for(gen)
+        gv = np.ascontiguousarray(np.concatenate([P, -P[:10]]))
+        for tol in (0.05, 0.25):
+            o = oracle(np.ascontiguousarray(ubi), gv, tol)
+            if o.get("status") != "ok":
+                sh.borderline += 1
+                continue
+            with contextlib.redirect_stdout(io.StringIO()):
+                rg = refinegrains.refinegrains(tolerance=tol)
+            rg.gv = gv
+            case = {"kind": "rgrefine", "ubi": ui, "tol": tol}
+            for layout in ("C", "F"):
+                arr = np.array(ubi, float, order=layout)
+                keep = arr.copy()
+                r1 = rg.refine(arr)
+                n1 = rg.npks
+                if not np.array_equal(arr, keep):
+                    sh.violation("refinegrains.refine:modifies-the-matrix-it-was-given", dict(case, layout=layout), {"before": keep, "after": arr})
+                    break
+                r2 = rg.refine(arr)
+                if not np.array_equal(r1, r2) or rg.npks != n1:
+                    sh.violation("refinegrains.refine:second-call-with-the-same-matrix-differs", dict(case, layout=layout), {"first": r1, "second": r2})
+                    break
+                # the first of its two passes is the least-squares solution over the peaks within tolerance of the input
+                second = oracle(o["ubi"], gv, tol)
+                if second.get("status") == "ok" and not np.allclose(r1, o["ubi"], rtol=1e-7, atol=o["atol"]):
+                    sh.violation("refinegrains.refine:not-the-least-squares-matrix", dict(case, layout=layout), {"got": r1, "expected": o["ubi"]})
+                    break
+                sh.evaluations += 1
+                sh.nontrivial += 1
+    sh.outcomes.add("rgrefine")
+    sh.sample(case, limit=1)
+    return sh
+
+
 def run_shard(desc):
-    return {"multi": _run_multi, "assigned": _run_assigned, "long": _run_long, "getind": _run_getind}[desc[0]](desc)
+    return {"exact": _run_exact, "rgrefine": _run_rgrefine, "multi": _run_multi, "assigned": _run_assigned, "long": _run_long, "getind": _run_getind}[desc[0]](desc)
 
 
 def replay(case):
@@ -341,6 +426,10 @@ def replay(case):
     elif case["kind"] == "assigned":
         r = _run_assigned(("assigned", case["ubi"], len(case["peaks"])))
         sh.violations = [v for v in r.violations if v["case"]["labels"] == case["labels"]]
+    elif case["kind"] == "exact":
+        sh.violations = [v for v in _run_exact(("exact",)).violations if v["case"]["tol"] == case["tol"] and v["case"]["scale"] == case["scale"]]
+    elif case["kind"] == "rgrefine":
+        sh.violations = [v for v in _run_rgrefine(("rgrefine",)).violations if v["case"]["ubi"] == case["ubi"]]
     elif case["kind"] == "getind":
         sh.violations = _run_getind(("getind", case["ubi"], len(case["sequence"]))).violations
     else:
